@@ -1,4 +1,4 @@
-From Tabula Require Import model.C02_Walks.
+From Tabula Require Import model.C02_Walks model.C02_Deep.
 Open Scope Z_scope.
 
 Definition dec_pobj (v : val) : pobj :=
@@ -8,7 +8,32 @@ Definition dec_pobj (v : val) : pobj :=
   | _ => POther
   end.
 
-(* (0 ((num obj)...) root)        -> (0 pages) | (1)           page tree walk
+(* objects for ResolveDeep: (0 v) a value without references, (1 n) a reference, (2 (obj ...)) an array *)
+Fixpoint dec_dobj (fuel : nat) (v : val) : dobj :=
+  match fuel with
+  | O => DLeaf 0
+  | S f =>
+      match val_l v with
+      | [VI 1; n] => DRef (val_n n)
+      | [VI 2; VL l] => DArr (map (dec_dobj f) l)
+      | [VI 0; n] => DLeaf (val_n n)
+      | _ => DLeaf 0
+      end
+  end.
+
+Fixpoint enc_dobj (fuel : nat) (o : dobj) : val :=
+  match fuel with
+  | O => VI (-1)
+  | S f =>
+      match o with
+      | DLeaf v => VL [VI 0; VI (Z.of_N v)]
+      | DRef n => VL [VI 1; VI (Z.of_N n)]
+      | DArr l => VL [VI 2; VL (map (enc_dobj f) l)]
+      end
+  end.
+
+(* (5 ((num obj)...) budget obj)  -> (0 expanded) | (1)        ResolveDeep
+   (0 ((num obj)...) root)        -> (0 pages) | (1)           page tree walk
    (1 ((off prev?)...) main)      -> (0 sections-read) | (1)   /Prev chain
    (2 w0 w1 w2 (idx...) datalen)  -> (0) accepted | (1) refused   cross-reference stream sizes
    (3 n first decoded)            -> (0) | (1)                  object stream header
@@ -21,6 +46,13 @@ Definition run_C02 (v : val) : val :=
       | WOk _ p => VL [VI 0; vnat p]
       | WErr => VL [VI 1]
       | WOutOfFuel => VL [VI 9]
+      end
+  | [VI 5; VL objs; VI budget; o] =>
+      let st := map (fun e => match val_l e with [n; x] => (val_n n, dec_dobj 64 x) | _ => (0%N, DLeaf 0) end) objs in
+      match resolve_deep st (Z.to_nat budget) (dec_dobj 64 o) with
+      | DOk r => VL [VI 0; enc_dobj 200 r]
+      | DErr => VL [VI 1]
+      | DOutOfFuel => VL [VI 9]
       end
   | [VI 1; VL secs; main] =>
       let s := map (fun e => match val_l e with
